@@ -47,7 +47,7 @@ def _decl():
 # ---------------------------------------------------------------------------
 class Ids(Family):
     name = 'ids'
-    paths = ('item',)
+    paths = ('item', 'item[2]', 'item[sub/@id]', 'item[last()]')
 
     def sources(self, version):
         return {'ids.xsd': f'''<xs:schema {XS} targetNamespace="urn:ids" xmlns="urn:ids"
